@@ -312,7 +312,9 @@ impl<'a> ProgGen<'a> {
                     Stmt::StreamLoop { leaf, body, take }
                 }
                 4 => {
-                    let task = self.task(depth - 1, legacy);
+                    // a spawned task gets copies of the join handles its parent holds at that moment
+                    let inherited = slots.clone();
+                    let task = self.branch_task(depth - 1, legacy, &inherited);
                     let slot = if !legacy && self.rng.chance(2, 3) {
                         self.next_slot += 1;
                         slots.push((self.next_slot, false));
